@@ -74,6 +74,13 @@ func OrderHistories(tier string) []OrderHistory {
 		OrderHistory{"batch-one-winner-two-losers", cfg, []Op{batch(0), allow(0, "bid1", "10"), allow(0, "bid2", "10"), allow(0, "bid3", "10"), many(0, "bid1", "4", "10"), worth(0, "bid2", "2", "7"), many(0, "bid3", "1", "3"), blk(2)}},
 		OrderHistory{"batch-nothing-matched-three-refunds", cfg, []Op{batch(0), allow(0, "bid1", "10"), allow(0, "bid2", "10"), allow(0, "bid3", "10"), many(0, "bid1", "4", "6"), many(0, "bid2", "4", "6"), worth(0, "bid3", "4", "30"), blk(2)}},
 	)
+	hs = append(hs,
+		// one AddAllowedBidders call carrying a list whose LAST entry is refused (cap above the offer), made by a
+		// module that handles the error and keeps going: which entries were stored must not depend on the run
+		OrderHistory{"allow-list-call-with-a-refused-entry", cfg, []Op{fixed,
+			{Kind: "add_allowed", AID: 0, Bidder: "bid1", Max: "10", More: "bid2:10,bid3:10,out1:10,donor:11", KeepOnError: true},
+			fb(0, "bid1", "bcoin", "3"), fb(0, "bid2", "acoin", "2"), fb(0, "bid3", "bcoin", "1"), fb(0, "out1", "bcoin", "1"), blk(2)}},
+	)
 	if tier == "thorough" {
 		hs = append(hs,
 			OrderHistory{"fixed-4-bidders", cfg, []Op{fixed, allow(0, "bid1", "10"), allow(0, "bid2", "10"), allow(0, "bid3", "10"), allow(0, "out1", "10"),
